@@ -255,6 +255,21 @@ inline T mk(u64 x)
     {
         return Cm{static_cast<u8>(x)};
     }
+    else if constexpr (std::is_floating_point_v<T>)
+    {
+        // the code of a floating-point value is its bit pattern
+        T f;
+        if constexpr (sizeof(T) == 4)
+        {
+            const u32 b = static_cast<u32>(x);
+            __builtin_memcpy(&f, &b, 4);
+        }
+        else
+        {
+            __builtin_memcpy(&f, &x, 8);
+        }
+        return f;
+    }
     else
     {
         return static_cast<T>(x);
@@ -271,9 +286,28 @@ inline u64 val(const T& x)
     {
         return x.v;
     }
+    else if constexpr (std::is_floating_point_v<T>)
+    {
+        u64 r = 0;
+        __builtin_memcpy(&r, &x, sizeof(T));
+        return r;
+    }
     else
     {
         return static_cast<u64>(x);
+    }
+}
+// equality / order of two value codes under the value type's own == and <
+template <class T>
+inline bool code_eq(u64 a, u64 b)
+{
+    if constexpr (std::is_floating_point_v<T>)
+    {
+        return mk<T>(a) == mk<T>(b);
+    }
+    else
+    {
+        return a == b;
     }
 }
 template <class T>
